@@ -82,6 +82,9 @@ def attrsLen (f : LenFacts) : Nat := 8 + 39 + 15 + 10 + (if f.secure then 8 else
 
 def lineLen (f : LenFacts) (nameLen gob : Nat) : Nat := nameLen + 1 + valueLen f gob + attrsLen f
 
+/-- a line that deletes a cookie: `name=; Path=/; Expires=<29>; Max-Age=0; HttpOnly[; Secure]; SameSite=Lax` -/
+def delLineLen (secure : Bool) (nameLen : Nat) : Nat := nameLen + 1 + (8 + 39 + 11 + 10 + (if secure then 8 else 0) + 14)
+
 /-- securecookie's length check in `Encode`: a value longer than the codec's ceiling is not produced (`Save` returns an error
     and writes no cookie); a ceiling of 0 switches the check off -/
 def fits (ceiling : Nat) (f : LenFacts) (gob : Nat) : Bool := ceiling == 0 || decide (valueLen f gob ≤ ceiling)
